@@ -45,17 +45,19 @@ SCHEMAS = {
                          use_space=0,
                          half={",": "，", ".": {"commit": "。"}, "/": ["、", "／", "/", "÷"], '"': {"pair": ["“", "”"]},
                                ";": ["；", ";", "︔", "﹔", "⁏", "؛"], "'": {"pair": ["‘", "’"]}, "$": ["￥", "$", "€"],
-                               "-": ["－", "-", "－"], "!": "!"},
+                               "-": ["－", "-", "－"], "!": "!", "%": ["％", "%", "‰"], "#": ["＃", "#", "♯", "№"]},
                          full={",": "，", ".": {"commit": "．"}, "/": ["／", "÷"], '"': {"pair": ["＂", "“"]}, ";": "；",
-                               " ": {"commit": "　"}, "$": ["＄", "￥", "$"], "-": {"commit": "－"}})),
+                               " ": {"commit": "　"}, "$": ["＄", "￥", "$"], "-": {"commit": "－"}, "%": ["％", "‰"],
+                               "#": ["＃", "♯", "№"]})),
     "vs_punctf": dict(procs=["speller", "punctuator", "selector", "navigator", "fluid_editor"], alphabet="abc", delimiters="'",
                       pageSize=2, uniq=0, punct=dict(
                           use_space=1,
                           half={",": "，", ".": {"commit": "。"}, "/": ["、", "／", "/", "÷"], '"': {"pair": ["“", "”"]},
                                 ";": ["；", ";", "︔", "﹔", "⁏", "؛"], "'": {"pair": ["‘", "’"]}, "$": ["￥", "$", "€"],
-                                "-": ["－", "-", "－"], "!": "!", " ": ["　", " "]},
+                                "-": ["－", "-", "－"], "!": "!", " ": ["　", " "], "%": ["％", "%", "‰"], "#": ["＃", "#", "♯", "№"]},
                           full={",": "，", ".": {"commit": "．"}, "/": ["／", "÷"], '"': {"pair": ["＂", "“"]}, ";": "；",
-                                " ": {"commit": "　"}, "$": ["＄", "￥", "$"], "-": {"commit": "－"}})),
+                                " ": {"commit": "　"}, "$": ["＄", "￥", "$"], "-": {"commit": "－"}, "%": ["％", "‰"],
+                                "#": ["＃", "♯", "№"]})),
 }
 
 
@@ -929,6 +931,12 @@ def punct_grid(rows_for, hs):
                 if isinstance(d, list):
                     hs.append((sid, pre + [key, "key %d 0" % XK["Next"], key, key, "key %d 0" % XK["Next"], key, "page +", key] + end, tid))
                     hs.append((sid, pre + [key, key, "key 97 0", "key %d 0" % XK["BackSpace"], key, "key %d 0" % XK["Left"], key] + end, tid))
+                if isinstance(d, list):
+                    # an option changes while the k-th alternative is highlighted: the segment is translated again in the
+                    # other shape, whose list for this key may be shorter (the index must not survive the new menu)
+                    for k in range(1, n + 1):
+                        hs.append((sid, pre + [key] * k + ["option full_shape %d" % (shape == "half"), "option foo 1",
+                                                           "option full_shape %d" % (shape == "full")] + end, tid))
             pairs = [ch for ch, d in P[shape].items() if isinstance(d, dict) and "pair" in d]
             if pairs:
                 a, b = ord(pairs[0]), ord(pairs[-1])
